@@ -8,8 +8,8 @@ from .. import core
 from .. import schedcase
 from .. import skeltrace
 
-LEAN_TARGETS = ["SqVerif.Props.C03", "SqVerif.Props.C03Bridge"]
-PROPS_FILE = ["SqVerif/Props/C03Skel.lean", "SqVerif/Props/C03Bridge.lean"]
+LEAN_TARGETS = ["SqVerif.Props.C03", "SqVerif.Props.C03Bridge", "SqVerif.Props.C03Dyn"]
+PROPS_FILE = ["SqVerif/Props/C03Skel.lean", "SqVerif/Props/C03Bridge.lean", "SqVerif/Props/C03Dyn.lean"]
 DRIVE_TARGETS = ["SqVerif.Drive.VNet", "SqVerif.Drive.Skel"]
 TRUSTED = [
     "harness/simnet.py: fake reactor + Perspective Broker over in-memory pipes, one schedulable event per PB message, "
